@@ -263,7 +263,8 @@ def run_skip_layouts(case):
   sc = case['scope']
   unk_block = f'{sc}nobody.here:\n  a = 1\n  b = 2\n'
   unk_flat = f'{sc}nobody.here.a = 1\n{sc}nobody.here.b = 2\n'
-  known1, known2 = f'{sc}sk.f.p = 2\n', 'sk.f.q = 3\nsk.g.r = 4\n'
+  # (two macro definitions among the known statements: a macro's name is no configurable, known or unknown)
+  known1, known2 = f'{sc}sk.f.p = 2\n', 'sk.f.q = 3\nrate = 7\nsk.g.r = 4\nlow/rate = 8\n'
   known_block = f'{sc}sk.f:\n  p = 2\n'
   parts = {'unknown_first': lambda u: u + known1 + known2, 'unknown_between': lambda u: known1 + u + known2,
            'unknown_last': lambda u: known1 + known2 + u}[case['order']]
@@ -339,9 +340,11 @@ def _essence(stmts):
 def oracle(case, impl):
   if case['kind'] == 'skip_layouts':
     f = impl['facts']
-    if len(set(f['configs'])) != 1 or "'p', 2" not in f['configs'][0] or 'nobody' in f['configs'][0]:
+    if (len(set(f['configs'])) != 1 or "'p', 2" not in f['configs'][0] or 'nobody' in f['configs'][0]
+        or "(('rate', 'gin.macro'), [('value', 7)])" not in f['configs'][0]
+        or "(('low/rate', 'gin.macro'), [('value', 8)])" not in f['configs'][0]):
       return (f'three layouts of the same statements (an unknown configurable as a block or flat, skip_unknown={case["skip"]}) '
-              f'do not give one configuration holding the known bindings only: {f["configs"]}\n{f["texts"]}')
+              f'do not give one configuration holding the known bindings and the two macro definitions only: {f["configs"]}\n{f["texts"]}')
     return None
   runs = impl['runs']
   if case['kind'] == 'bad':
